@@ -8,6 +8,9 @@ R-C18b  no narrowing before comparison: an operand of a value comparison is neve
 R-C18c  allclose runs the comparison under `with _temporary_x64(...)` (pairing itself: C13 R-C13d)
 R-C18d  _build_ort_inputs: every session input gets a feed entry or the function raises; left-over
         positional values raise
+R-C18f  dtype classes: every iteration of the output loop passes a comparison of the dtype classes (bool / integer /
+        floating) of reference and model output whose failure returns (False, …) — otherwise a model that answers
+        with floats where fn returns integers is compared with a relative tolerance (1000.9 passes for 1000)
 R-C18e  the model under test is loaded on every call: each `InferenceSession(…)` reachable from
         allclose / allclose_onnxruntime_web is constructed from the caller's path parameter, in a function
         that is not memoised (functools.lru_cache / cache / a cache decorator) and whose session is not
@@ -219,6 +222,34 @@ def run(res: Results, idx: Index, tier: str) -> None:
         res.ok("R-C18a", f"{UI}:{shape_ifs[0].lineno}", key, "every iteration compares the shapes and fails with (False, …) on mismatch", f.qualname)
     else:
         res.violation("R-C18a", f"{UI}:{loop.lineno}", key, "an output can be accepted without its shape being compared (numpy broadcasting would hide a shape deviation)", f.qualname)
+    # ---- R-C18f dtype classes
+    res.rule("R-C18f", "the dtype classes of reference and model output are compared, with a False-returning failure branch, in every iteration", floor=1)
+    key = f"{UI}::_run_allclose::dtype-class-comparison"
+    class_ifs = []
+    for n in body_ifs:
+        if not _returns_false_tuple(n.body) or not isinstance(n.test, ast.Compare) or not isinstance(n.test.ops[0], ast.NotEq):
+            continue
+        sides = [n.test.left, n.test.comparators[0]]
+        exprs = []
+        for sd in sides:
+            exprs.append([sd] + [v for nm in du.closure(names_in(sd)) for v in du.values(nm)])
+
+        def _is_class(es) -> bool:
+            for e in es:
+                for x in ast.walk(e):
+                    if isinstance(x, ast.Attribute) and x.attr == "kind":
+                        return True
+                    if isinstance(x, ast.Call) and any(t in (call_name(x) or "").lower() for t in ("dtype_class", "dtype_kind", "issubdtype", "_is_floating_dtype", "is_integer")):
+                        return True
+            return False
+        tn0 = names_in(loop.target)
+        if all(_is_class(es) for es in exprs) and all(du.derived_from(sd, tn0) for sd in sides):
+            class_ifs.append(n)
+    if class_ifs and iteration_must_pass([(n_, "F") for s_ in class_ifs for n_ in g.nodes_of(s_)]):
+        res.ok("R-C18f", f"{UI}:{class_ifs[0].lineno}", key, "every iteration compares the dtype classes and fails with (False, …) when they differ", f.qualname)
+    else:
+        res.violation("R-C18f", f"{UI}:{loop.lineno}", key, "the dtype classes of reference and model output are never compared: an integer reference against a floating model output goes through the tolerance comparison, so 1000.9 is accepted for 1000 (and True for 1)", f.qualname)
+
     key = f"{UI}::_run_allclose::value-comparison"
     # hand-written tolerance tests: `if not (diff <= bound).all(): return False` rejects NaN (sound, if strict);
     # `if (diff > bound).any(): return False` accepts it (every ordered comparison with NaN is False)
